@@ -121,7 +121,7 @@ Definition ex_all_paths : list label :=
   [LGet; LGetSend; LPollOffer; LRelayOk; LPcFail; LMainRecv] ++
   [LGet; LGetSend; LPollOffer; LRelayOk; LPcOk; LAnswerFail; LGiveUp; LClose; LMainRecv] ++
   [LGet; LGetSend; LPollOffer; LRelayOk; LPcOk; LAnswerOk; LSelectTimeout; LGiveUp; LClose; LMainRecv] ++
-  [LGet; LGetSend; LPollOffer; LRelayOk; LPcOk; LAnswerOk; LDcOpen; LSelectOpen; LH 7 HClaim; LH 7 HEnd; LH 7 HRecv] ++
+  [LGet; LGetSend; LPollOffer; LRelayOk; LPcOk; LAnswerOk; LDcOpen; LSelectOpen; LH 7 HClaim; LH 7 HDialFail; LH 7 HRecv] ++
   [LH 0 HEnd; LH 0 HRecv].
 
 Example C16_full_capacity_again_nonvacuous :
@@ -189,9 +189,10 @@ Theorem C16_poll_loop_iff_free_slot : forall N ls st,
 Proof. intros N ls st H. exact (inv_poll_loop _ _ (run_inv _ _ _ H)). Qed.
 
 (* No served session can sit on a slot with nothing left to run: a session runSession has returned from and that
-   still occupies a slot has a handler goroutine, and that goroutine alone (at most 3 of its own steps: claim, end
-   of datachannelHandler, channel receive; nothing is asked of the loop, of another session, or of the peer beyond
-   datachannelHandler returning) gives the slot back: one more slot is free afterwards. *)
+   still occupies a slot has a handler goroutine, and that goroutine alone (at most 3 of its own steps: claim, the
+   handshake timer of the relay dial or the end of copyLoop, channel receive; nothing is asked of the loop, of another
+   session, of the relay while it is being dialled, or of the peer beyond copyLoop returning) gives the slot back:
+   one more slot is free afterwards. *)
 Theorem C16_served_session_can_release : forall N ls st i c,
   run V1 (init N) ls = Some st -> nth_error (bg st) i = Some c -> holds c + pend c = 1 ->
   length (handler_path i c) <= 3 /\ Forall (own_handler_step i) (handler_path i c) /\
@@ -266,5 +267,50 @@ Proof. eexists. eexists. vm_compute. repeat split. Qed.
 Example C16_negotiating_session_handler_owned :
   exists st c, run V1 (init 1) [LGet; LGetSend; LPollOffer; LRelayOk; LPcOk; LDcOpen; LH 0 HClaim] = Some st /\
                cur st = Some c /\ own c = OHandler /\
-               cur_release st c = [LAnswerFail; LGiveUp; LH 0 HEnd; LH 0 HRecv].
+               cur_release st c = [LAnswerFail; LGiveUp; LH 0 HDialTimer; LH 0 HRecv].
 Proof. eexists. eexists. vm_compute. repeat split. Qed.
+
+(* ==== the relay dial (handler stage HDial: datachannelHandler is inside websocket.DefaultDialer.Dial).  What the relay
+   answers is the environment's choice (LH i HDialOk / LH i HDialFail); a relay that accepts the connection and never
+   answers gives NEITHER.  The code's own bound is the dialer's 45 s HandshakeTimeout: LH i HDialTimer. *)
+
+(* ---- a session whose relay hangs gives its slot back by its own timer: from EVERY reachable state with a served session
+   inside the relay dial, two steps of that session's handler - the timer and the channel receive, nothing from the relay,
+   the loop, the broker or another session - and the slot is free again, released exactly once *)
+Theorem C16_hanging_relay_released : forall N ls st i c,
+  run V1 (init N) ls = Some st -> nth_error (bg st) i = Some c -> hp c = HDial ->
+  holds c = 1 /\
+  exists st' c', run V1 st [LH i HDialTimer; LH i HRecv] = Some st' /\
+    nth_error (bg st') i = Some c' /\ holds c' = 0 /\ pend c' = 0 /\ hp c' = HDone /\ released c' = 1 /\
+    mn st' = mn st /\ cur st' = cur st /\ in_use st' + 1 = in_use st /\
+    (N <> 0 -> S (chlen (tok st')) = chlen (tok st)).
+Proof. intros N ls st i c H Hn Hh. exact (dial_timer_releases N st i c (run_inv _ _ _ H) Hn Hh). Qed.
+
+(* ---- and ONLY that timer (or an answer of the relay) does: without a dial event of session i - whatever else happens, for
+   ever, in either code version - the session stays inside the dial, holding its slot.  A dial that is not bounded by a
+   timer therefore leaks the slot of every session whose relay hangs. *)
+Theorem C16_dial_without_timer_leaks : forall v tr st st' i c, nth_error (bg st) i = Some c -> hp c = HDial ->
+  forallb (fun l => negb (dial_event i l)) tr = true -> run v st tr = Some st' ->
+  nth_error (bg st') i = Some c.
+Proof. exact hang_holds_slot. Qed.
+
+(* capacity 1, the only client's relay hangs: the loop is parked in tokens.get() (C16_poll_loop_iff_free_slot: no free
+   slot) until the timer has fired *)
+Definition ex_dialling : list label := [LGet; LGetSend; LPollOffer; LRelayOk; LPcOk; LAnswerOk; LDcOpen; LH 0 HClaim; LSelectOpen].
+
+Example C16_hanging_relay_nonvacuous :
+  exists st c, run V1 (init 1) ex_dialling = Some st /\ nth_error (bg st) 0 = Some c /\ hp c = HDial /\ in_use st = 1 /\
+    free_slots 1 st = 0 /\ n_active st = 1 /\
+    (exists st', run V1 st [LGet; LH 0 HDialTimer; LH 0 HRecv; LGetSend] = Some st' /\ mn st' = MPoll /\ in_use st' = 1) /\
+    (exists st', run V1 st [LGet; LPollNoMatch] = None /\ run V1 st [LGet] = Some st' /\ step V1 st' LGetSend = None).
+Proof.
+  eexists. eexists. split; [vm_compute; reflexivity|]. vm_compute. repeat split.
+  - eexists. repeat split.
+  - eexists. repeat split.
+Qed.
+
+Example C16_dial_without_timer_nonvacuous :
+  exists st c, run V1 (init 2) ex_dialling = Some st /\ nth_error (bg st) 0 = Some c /\ hp c = HDial /\
+    forallb (fun l => negb (dial_event 0 l)) (w_open 1 ++ [LH 1 HEnd; LH 1 HRecv]) = true /\
+    run V1 st (w_open 1 ++ [LH 1 HEnd; LH 1 HRecv]) <> None.
+Proof. eexists. eexists. split; [vm_compute; reflexivity|]. vm_compute. repeat split. discriminate. Qed.
